@@ -17,6 +17,18 @@ thread_local! {
     /// the consuming operations, which the model does not count)
     static CLONE_CB: Cell<bool> = const { Cell::new(false) };
     static HASH_CB: Cell<bool> = const { Cell::new(false) };
+    /// `Drop` of items / priorities counts as a user callback inside `clear`
+    /// (the model: Machine.v, OClear) and, under `hfuse`, everywhere
+    static DROP_CB: Cell<bool> = const { Cell::new(false) };
+}
+pub fn drop_callbacks(on: bool) {
+    DROP_CB.with(|c| c.set(on));
+}
+#[inline]
+fn drop_tick() {
+    if HASH_CB.with(|c| c.get()) || DROP_CB.with(|c| c.get()) {
+        fuse_tick();
+    }
 }
 
 /// `hfuse`: Hash::hash and Eq::eq of items are user callbacks too (the model
@@ -120,7 +132,7 @@ impl Eq for It {}
 impl Drop for It {
     #[inline]
     fn drop(&mut self) {
-        hash_tick();
+        drop_tick();
     }
 }
 impl Hash for It {
@@ -148,7 +160,7 @@ impl Eq for Pr {}
 impl Drop for Pr {
     #[inline]
     fn drop(&mut self) {
-        hash_tick();
+        drop_tick();
     }
 }
 impl Clone for Pr {
